@@ -93,11 +93,11 @@ package db
 //@   ensures [read-only] storeUnchanged(d)
 //@   modifies lib:db.store, fresh GovernanceVAA.*, fresh vaa.VAAID.*
 //@   nopanic
-//@   at [vaaBytes, err := it.Item().ValueCopy(nil)]: assert [g1] sequence == iterKey(it).Sequence
-//@   at [vaaBytes, err := it.Item().ValueCopy(nil)]: assert [g2] targetChain == iterKey(it).TargetChain
-//@   at [vaaBytes, err := it.Item().ValueCopy(nil)]: assert [g3] stored(d, iterKey(it)) && iterKey(it).EmitterChain == governanceChainId && iterKey(it).EmitterAddress == governanceEmitter
-//@   at [vaaBytes, err := it.Item().ValueCopy(nil)]: assert [g4] iterKey(it) == govId(governanceChainId, governanceEmitter, targetChain, sequence)
-//@   at [vaaBytes, err := it.Item().ValueCopy(nil)]: assert [g5] requested(sequences, sequence)
+//@   at [vaaBytes, err := it.Item().ValueCopy(nil)]: assert [sequence-of-the-key] sequence == iterKey(it).Sequence
+//@   at [vaaBytes, err := it.Item().ValueCopy(nil)]: assert [target-of-the-key] targetChain == iterKey(it).TargetChain
+//@   at [vaaBytes, err := it.Item().ValueCopy(nil)]: assert [governance-emitter-only] stored(d, iterKey(it)) && iterKey(it).EmitterChain == governanceChainId && iterKey(it).EmitterAddress == governanceEmitter
+//@   at [vaaBytes, err := it.Item().ValueCopy(nil)]: assert [id-of-the-key] iterKey(it) == govId(governanceChainId, governanceEmitter, targetChain, sequence)
+//@   at [vaaBytes, err := it.Item().ValueCopy(nil)]: assert [was-requested] requested(sequences, sequence)
 //@   loop [range sequences]:
 //@     invariant [not-yet] forall k in 0..$i :: sequences[k] != seq
 //@   loop [it.ValidForPrefix(prefixBytes)]:
